@@ -24,6 +24,8 @@ def build(r, name, n_enabled, mask):
         v.attr_order_seed = r.randint(0, 7)
     spec = EnumSpec(name=name, variants=vs, derives=["EnumTable"], std_derives=["Debug", "PartialEq", "Clone", "Copy"])
     gen.add_noise(r, spec, skip=("message",))
+    if not any(model.snakify(v.ident).startswith("r_") for v in spec.variants):
+        gen.rawify(r, spec, explicit_names=False)
     if r.random() < 0.5:
         # explicit discriminants in an order unrelated to the declaration order
         vals = r.sample(range(-40, 400), n)
@@ -47,7 +49,8 @@ def glue(spec, thorough):
     ty = spec.ty()
     tab = spec.name + "Table"
     P = spec.path()
-    body = spec.render() + "\n"
+    body = "pub mod defs {\n    use super::*;\n" + spec.render() + "\n}\nuse self::defs::*;\n"
+    body += "pub struct NoClone(pub u64);\n"
     body += "pub fn drive(m: &mut vmon::Mon) {\n"
     body += "    let key = |i: usize| -> %s { match i { %s, _ => unreachable!() } };\n" % (ty, ", ".join("%d => %s::%s" % (p, P, spec.variants[i].ident) for p, i in enumerate(en)))
     body += "    let idx = |k: %s| -> usize { match k { %s } };\n" % (ty, ", ".join(
@@ -104,6 +107,12 @@ def glue(spec, thorough):
         body += "      m.expect_panic(\"table\", \"index(disabled)\", %s, || { let _ = t0[%s::%s]; });\n" % (rs_str(v.ident), P, v.ident)
         body += "      m.expect_panic(\"table\", \"index_mut(disabled)\", %s, std::panic::AssertUnwindSafe(|| { t[%s::%s] = 5; }));\n" % (rs_str(v.ident), P, v.ident)
         body += "      vmon::table::compare(m, &t, &model0, &key, \"unchanged-after-disabled-write\", %s); }\n" % rs_str("t[%s] = 5" % v.ident)
+    # value types that are not Clone / Default / Debug: new, from_closure, transform and indexing must not need them
+    body += "    let tn: %s<NoClone> = %s::new(%s);\n" % (tab, tab, ", ".join("NoClone(%d)" % (300 + p) for p in range(n)))
+    body += "    for i in 0..%d { m.expect_eq(\"table\", \"new with a non-Clone value type\", &format!(\"slot {}\", i), &tn[key(i)].0, &(300 + i as u64), true); }\n" % n
+    body += "    let tn2: %s<NoClone> = %s::from_closure(|k: %s| NoClone(700 + idx(k) as u64));\n" % (tab, tab, ty)
+    body += "    let tn3: %s<NoClone> = tn2.transform(|k: %s, v: &NoClone| NoClone(v.0 * 2 + idx(k) as u64));\n" % (tab, ty)
+    body += "    for i in 0..%d { m.expect_eq(\"table\", \"from_closure/transform with a non-Clone value type\", &format!(\"slot {}\", i), &tn3[key(i)].0, &((700 + i as u64) * 2 + i as u64), true); }\n" % n
     # clone / eq
     body += "    let mut t1 = t0.clone();\n"
     body += "    m.expect_eq(\"table\", \"clone == original\", \"eq\", &(t1 == t0), &true, true);\n"
